@@ -283,13 +283,15 @@ def turn_outcome_kinds(spec, rec):
 # running
 # ------------------------------------------------------------------------------------------------
 
-def run_conversations(spec, fault_at=None, tr=None, max_iterations=400000, options_fn=None, state_mode="json", idle_fn=None):
+def run_conversations(spec, fault_at=None, tr=None, max_iterations=400000, options_fn=None, state_mode="json", idle_fn=None, fresh_instance=False):
     """Sequentially serve spec['convs'] (each on the same world) and return (world, records).
 
     state_mode (Colang 2.x): "json" = the caller hands back the serialised state that generate_async returned
     (what every real caller does); "live" = the caller hands back the live State object the runtime produced, so
     the conversation never passes through state_to_json/json_to_state (C11's reference twin).
-    idle_fn(c, t) -> virtual seconds the conversation rests before turn t (ageing fault)."""
+    idle_fn(c, t) -> virtual seconds the conversation rests before turn t (ageing fault).
+    fresh_instance: every turn after the first is served by a NEW LLMRails instance built from the same configuration (the serving
+    process was restarted between the turns; only what the caller holds - the returned state - survives)."""
     holder = {}
     llm_lat, act_lat = convo.latency_fns(spec)
 
@@ -327,6 +329,8 @@ def run_conversations(spec, fault_at=None, tr=None, max_iterations=400000, optio
                         idle = idle_fn(c, t)
                         if idle:
                             await asyncio.sleep(idle)
+                    if fresh_instance and t > 0:
+                        world.rebuild_app()
                     rec = TurnRecord(c, t, turn["tok"], turn["text"])
                     h0 = len(world.history)
                     opts = options_fn(c, t) if options_fn else None
